@@ -1027,7 +1027,7 @@ struct json_object *json_tokener_parse_ex(struct json_tokener *tok, const char *
 				printbuf_memappend_checked(tok->pb, case_start, case_len);
 
 			// Check for -Infinity
-			if (tok->pb->buf[0] == '-' && case_len <= 1 && (c == 'i' || c == 'I'))
+			if (tok->pb->buf[0] == '-' && printbuf_length(tok->pb) == 1 && (c == 'i' || c == 'I'))
 			{
 				state = json_tokener_state_inf;
 				tok->st_pos = 0;
